@@ -316,9 +316,13 @@ def gen_spectral_case(rng, nmax=8, hermitian=True):
     v = S @ c
     if not cplx:
         A = np.real(A); v = np.real(v)
-    elif hermitian and rng.random() < 0.2 and mode >= 0.45:
-        v = np.real(v) + 0.0       # real start vector for a complex Hermitian matrix: generic
-        c = S.conj().T @ v
+    elif rng.random() < 0.25 and mode >= 0.45:
+        # real (float64 or integer) start vector for a complex matrix: generic; the work arrays must not inherit its dtype
+        if rng.random() < 0.3:
+            v = np.zeros(n, dtype=int); v[int(rng.integers(n))] = int(rng.choice([1, 2, -1]))
+        else:
+            v = np.real(v) + 0.0
+        c = (S.conj().T if hermitian else np.linalg.inv(S)) @ v
     nz = np.abs(c) > 1e-9
     d = len(set(np.round(lam[nz], 9).tolist())) if not np.iscomplexobj(lam) else len(set(np.round(lam[nz], 9).tolist()))
     return {'A': A, 'v': v * float(rng.choice([1.0, 1.0, 3.0, 0.25])), 'd': d, 'lam': lam, 'c': c, 'S': S}
